@@ -113,6 +113,23 @@ class Reader:
         return rs, set()
 
 
+def strip_logging(name, tree):
+    """SymWorld transformer: drop `logger.debug/info/warning(...)` statements.  Their arguments are built eagerly with
+    str.format, which would force every symbolic quality to a concrete value (one path per value) for the sake of
+    a log line; the messages have no influence on results.  The replay runs the untouched code."""
+    import ast
+
+    class T(ast.NodeTransformer):
+        def visit_Expr(self, node):
+            c = node.value
+            if (isinstance(c, ast.Call) and isinstance(c.func, ast.Attribute) and isinstance(c.func.value, ast.Name)
+                    and c.func.value.id == "logger" and c.func.attr in ("debug", "info", "warning")):
+                return ast.copy_location(ast.Pass(), node)
+            return node
+
+    return T().visit(tree)
+
+
 def cli_stub():
     """`whatshap.cli` inside a SymWorld (its real __init__ imports the compiled BAM machinery)."""
     from vf.runner import REPO
